@@ -197,6 +197,127 @@ def gen_history(rng, nops, nkeys, timed, weights=None):
     return ops, nreq, nconn
 
 
+def gen_aging(rng):
+    """timed template: a burst of HTTP/1 requests is served, the holders release one after the other with
+    clock ticks in between (idle entries of different ages), the peer closes some idle connections, the
+    clock may tick again, then newcomers arrive"""
+    key = rng.randrange(7)
+    k = rng.choice([2, 2, 3])
+    ops = [["I", key, 1] for _ in range(k)] + [["P", r] for r in range(k)]
+    ops += [["D", r, "o"] for r in range(k)] + [["P", r] for r in range(k)]
+    order = list(range(k))
+    rng.shuffle(order)
+    for r in order:
+        ops += [["F", r], ["P", r], ["R", r], ["B"]]
+        if rng.random() < 0.5:
+            ops.append(["T", TICK_MS])
+    for c in range(k):
+        if rng.random() < 0.4:
+            ops.append(["C", c])
+    if rng.random() < 0.3:
+        ops.append(["T", TICK_MS])
+    nreq = k
+    for _ in range(rng.choice([1, 2])):
+        ops += [["I", key, 1], ["P", nreq]]
+        nreq += 1
+    return ops, nreq, k
+
+
+def gen_template(rng):
+    """interleavings that the properties single out (calibrated on seeded regressions), randomly perturbed:
+    pre-emption of the owner of an in-flight HTTP/2 attempt while another request waits on it; the window
+    between an Issue that pops a connection and that request's first poll; cancel of a checkout that
+    holds a popped connection while another request waits"""
+    k = rng.randrange(7)
+    pb = rng.choice([1, 2])
+    t = rng.choice(["preempt_owner", "preempt_owner", "pop_window", "pushback", "owner_fails"])
+    if t == "preempt_owner":
+        ops = [["I", k, 1], ["P", 0], ["D", 0, "o"], ["P", 0],
+               ["I", k, 2], ["P", 1], ["I", k, pb], ["P", 2],
+               ["F", 0], ["P", 0], ["R", 0], ["B"], ["P", 1]]
+        ops += rng.choice([[], [["D", 1, "o"], ["B"]], [["D", 1, "c"], ["B"]], [["D", 1, "h"], ["B"]]])
+        ops += [["P", 2], ["I", k, 2], ["P", 3]]
+        nreq, nconn = 4, 2
+    elif t == "pop_window":
+        ops = [["I", k, 2], ["P", 0], ["D", 0, rng.choice("oa")], ["P", 0], ["I", k, pb]]
+        ops += rng.choice([[["C", 0]], [["X", 1]], [["I", k, 2], ["P", 2]], [["I", k, 1], ["X", 1], ["P", 2]], [["T", 0]]])
+        ops += [["I", k, 2], ["P", 1], ["P", 2], ["P", 3]]
+        nreq, nconn = 4, 2
+    elif t == "pushback":
+        ops = [["I", k, 1], ["P", 0], ["D", 0, "o"], ["P", 0], ["F", 0], ["P", 0], ["R", 0], ["B"],
+               ["I", k, pb], ["I", k, pb]]
+        ops += rng.choice([[["X", 1], ["P", 2]], [["P", 2], ["X", 1], ["P", 2]], [["C", 0], ["X", 1], ["P", 2]]])
+        nreq, nconn = 3, 2
+    else:  # owner_fails
+        ops = [["I", k, 2], ["I", k, pb], ["I", k, 2], ["P", 0], ["P", 1], ["P", 2]]
+        ops += rng.choice([[["D", 0, "c"], ["P", 0]], [["D", 0, "h"], ["P", 0]], [["X", 0], ["B"]], [["X", 0], ["D", 0, "c"], ["B"]]])
+        ops += [["B"], ["P", 1], ["P", 2], ["I", k, 2], ["P", 3]]
+        nreq, nconn = 4, 1
+    # perturb: drop / duplicate / insert a few ops
+    ops = [o for o in ops if o[0] == "I" or rng.random() > 0.06]
+    for _ in range(rng.choice([0, 0, 1, 2])):
+        pos = rng.randrange(len(ops) + 1)
+        ops.insert(pos, rng.choice([["B"], ["P", rng.randrange(nreq)], ["R", rng.randrange(nconn)], ["C", rng.randrange(nconn)],
+                                    ["X", rng.randrange(nreq)], ["F", rng.randrange(nreq)]]))
+    ops = [o for o in ops if not (o[0] == "T" and o[1] == 0)]
+    return ops, nreq, nconn
+
+
+def gen_phased(rng, timed):
+    """histories built from phases (burst of requests served, partial release + hand-back, clock tick, peer
+    closes, newcomers) so that idle lists hold several entries of different ages and states"""
+    key = rng.randrange(7)
+    ops, nreq, nconn = [], 0, 0
+    live = []          # (rid, conn) currently holding
+    proto = lambda: 2 if rng.random() < 0.2 else 1
+    for _ in range(rng.choice([3, 4, 5, 6])):
+        ph = rng.choice(["burst", "burst", "release", "release", "tick", "close", "new", "cancelnew"])
+        if ph == "burst":
+            k = rng.choice([1, 2, 2, 3])
+            rs = list(range(nreq, nreq + k))
+            ops += [["I", key, proto()] for _ in rs]
+            nreq += k
+            ops += [["P", r] for r in rs]
+            ops += [["D", r, rng.choice("ooooac")] for r in rs]
+            ops += [["P", r] for r in rs]
+            for r in rs:
+                live.append((r, nconn))
+                nconn += 1
+        elif ph == "release" and live:
+            rng.shuffle(live)
+            k = rng.randrange(1, len(live) + 1)
+            out, live = live[:k], live[k:]
+            for r, c in out:
+                ops += [["F", r], ["P", r]]
+                if rng.random() < 0.85:
+                    ops.append(["R", rng.randrange(nconn + 1) if rng.random() < 0.1 else c])
+                if rng.random() < 0.3:
+                    ops.append(["B"])
+                    if timed and rng.random() < 0.5:
+                        ops.append(["T", TICK_MS])
+            ops.append(["B"])
+        elif ph == "tick" and timed:
+            ops.append(["T", TICK_MS])
+        elif ph == "close" and nconn:
+            for _ in range(rng.choice([1, 1, 2])):
+                ops.append(["C", rng.randrange(nconn)])
+        elif ph == "new":
+            ops += [["I", key, proto()], ["P", nreq]]
+            if rng.random() < 0.5:
+                ops += [["D", nreq, "o"], ["P", nreq]]
+                live.append((nreq, nconn))
+                nconn += 1
+            nreq += 1
+        elif ph == "cancelnew":
+            ops += [["I", key, proto()], ["I", key, proto()]]
+            ops += rng.choice([[["X", nreq], ["P", nreq + 1]], [["P", nreq + 1], ["X", nreq]], [["X", nreq + 1], ["P", nreq]]])
+            nreq += 2
+    if nreq == 0:
+        ops = [["I", key, 1], ["P", 0]]
+        nreq = 1
+    return ops, nreq, nconn
+
+
 class Pool(Plugin):
     harness_bin = "pool"
     coq_targets = ("pool/Corr.vo",)
@@ -215,7 +336,7 @@ class Pool(Plugin):
     assumptions = ["ops are atomic (single-threaded schedule); wall clock only advances through Tick (real sleeps of 1000 ms against an idle timeout of 400 ms)"]
     n_quick = 700
     n_thorough = 20000
-    timed_fraction = 0.05
+    timed_fraction = 0.18
 
     def corpus(self):
         """every pool property runs the witnesses of all pool findings first"""
@@ -243,10 +364,19 @@ class Pool(Plugin):
         mi = rng.choice([0, 1, 1, 2, 2, 3, 8, 8])
         cont = rng.random() < 0.5
         nops = rng.choice([6, 10, 14, 20, 30, 45]) if not timed else rng.choice([8, 14, 20])
-        ops, nreq, nconn = gen_history(rng, nops, rng.choice([1, 1, 1, 2, 3]), timed)
+        x = rng.random()
+        if not timed and x > 0.85:
+            ops, nreq, nconn = gen_template(rng)
+        elif timed and x < 0.5:
+            ops, nreq, nconn = gen_aging(rng)
+        elif x < (0.7 if timed else 0.3):
+            ops, nreq, nconn = gen_phased(rng, timed)
+        else:
+            ops, nreq, nconn = gen_history(rng, nops, rng.choice([1, 1, 1, 2, 3]), timed)
+        nreq = sum(1 for o in ops if o[0] == "I")     # the closing procedure is defined by the number of Issues
         drained = None
         if rng.random() < 0.7:
-            drained = [ops[0][1], rng.choice([1, 2])]
+            drained = [next(o[1] for o in ops if o[0] == "I"), rng.choice([1, 2])]
             ops += drain_ops(nreq, drained[0], drained[1])
         return {"cfg": [pool, to, mi, cont], "ops": ops, "drained": drained}
 
@@ -304,6 +434,22 @@ class Pool(Plugin):
             monf = [i for i in monf if i not in redo or i in keep_f]
         # a panic of the implementation is a disagreement and a monitor failure of every pool property
         return obss, sorted(set(mism) | set(panics)), sorted(set(monf) | set(panics))
+
+    def shrink(self, case, kind):
+        if any(o[0] == "T" for o in case["ops"]):
+            # every candidate of a timed case costs real sleeps: shrink coarsely
+            cur = case
+            for _ in range(8):
+                cands = list(self.shrinks(cur))[:48]
+                if not cands:
+                    break
+                obss, mism, monf = self.evaluate(cands)
+                bad = monf if kind == "monitor" else mism
+                if not bad:
+                    break
+                cur = cands[min(bad)]
+            return cur
+        return Plugin.shrink(self, case, kind)
 
     def shrinks(self, c):
         ops = c["ops"]
